@@ -56,6 +56,31 @@ def run(ck, F):
             ck.violation(rule, f"witness:{key}", where,
                          f"type-level witness fails ({d['code']}): {d['message'][:300]} | {d['text']}", fn=key)
     ck.floor("R1", "witness functions", len(fns), 9)
+    # R3: Send obligations on sampled client methods / free functions / envelopes (E4)
+    from rules import e4
+    res = e4.run(F, ck.tier)
+    n_m = sum(1 for a in res["asserts"] if re.match(r"\s*fn m_", a))
+    n_f = sum(1 for a in res["asserts"] if re.match(r"\s*fn f_", a))
+    n_s = sum(1 for a in res["asserts"] if re.match(r"\s*fn s_", a))
+    ck.count("R3:method futures asserted Send", n_m)
+    ck.count("R3:free-function futures asserted Send", n_f)
+    ck.count("R3:envelope types asserted Send+Sync", n_s)
+    if res["template_errors"] or [d for d in res["other"] if d["segment"] != "witness"]:
+        ck.undecided("R3", "samples-do-not-compile", "witness crate",
+                     "the sampled generated code does not type-check (see C01.R3), so the Send obligations on it could not be discharged")
+    else:
+        seen = set()
+        for d, kind, src in res["send_errors"]:
+            what = {"m": "client method", "f": "free operation function", "s": "envelope type"}[kind]
+            key = f"{what}:{d['code']}"
+            if key in seen:
+                continue
+            seen.add(key)
+            ck.violation("R3", key, "witness crate", f"a sampled {what} is not Send(+Sync): {d['message'][:200]} | {src[:160]}")
+        if not res["send_errors"]:
+            ck.ok("R3", "sampled-futures-send", "witness crate",
+                  f"{n_m} method futures, {n_f} free-function futures and {n_s} envelope types of {res['samples']} derivations satisfy Send / Send+Sync")
+    ck.floor("R3", "Send obligations on samples", n_m + n_f + n_s, 20)
     # R4 on the output grammar
     X = T.extractor(F)
     n = 0
